@@ -213,7 +213,7 @@ def run(ctx):
                 inp = {"dir": d, "extstrip": mode, "files": present, "linkfile": text, "caps": caps}
                 rp = {"extstrip": mode, "files": present, "linkfile": text, "caps": caps, "abstracts": abstracts}
                 cls, _ = reqs.classify("gopher", r.out)
-                if cls in ("notfound", "none") or r.exc:
+                if cls == "notfound" or r.exc or (cls == "none" and r.exceptions()):      # an empty menu (everything hidden) is a listing
                     res.violation("C08:listing-failed", "a directory with well-formed link files is not listed", inp, observed=(r.out or b"")[:120], required="listing", replay=rp)
                     continue
                 got = [(e[0], e[1], e[2], e[3], e[4]) for e in parse_gopher(r.out) if not (e[0] == "i" and e[2] == "fake")]
